@@ -36,6 +36,7 @@ PROP = {
     "tests": [
         ("TestVFC15Parser", (30000, 300000)),
         ("TestVFC15ParserLong", (400, 2000)),
+        ("TestVFC15ParserAfterManyRules", (1500, 10000)),
         ("TestVFC15Refresh", (300, 1500), {"steps": 8, "shards": (4, 16)}),
         ("TestVFC15RefreshVsAdmin", (120, 800), {"shards": (2, 16)}),
     ],
